@@ -102,6 +102,55 @@ fn gen_value_job(rng: &mut Rng, i: usize) -> Job {
     }
 }
 
+/// other ways to reach the channel instructions: element type `void` (members and the channel_read / channel_write
+/// intrinsics — repaired defect D89), the intrinsics and the type-qualified members on an int channel, and
+/// `channel` used as a first-class constructor value
+fn gen_chan_forms(rng: &mut Rng, i: usize) -> Job {
+    let n = rng.range(1, 5);
+    let m = rng.range(2, 9);
+    let a = rng.range(0, 50);
+    let b = rng.range(0, 50);
+    let mut s = String::from(PC_PRELUDE);
+    let (class, expected): (&str, Vec<String>) = match i % 5 {
+        0 => {
+            s.push_str(&format!(
+                "let c: channel<void> = channel()\nlet d: channel<int> = channel()\ntask {{\n  for i in {n} {{\n    c.read()\n    d.write(i * {m})\n  }}\n}}\nfor i in {n} {{\n  c.write(nil)\n  println(d.read())\n}}\nlet e: channel<void> = channel()\ne.write(nil)\ne.write(spin(2))\nlet u = e.read()\nprintln(u)\ne.read()\nprintln(\"end\")\n"
+            ));
+            let mut v: Vec<String> = (0..n).map(|i| (i * m).to_string()).collect();
+            v.push("nil".into());
+            v.push("end".into());
+            ("value:void-members:forms", v)
+        }
+        1 => {
+            s.push_str(&format!(
+                "fn f(c: channel<void>) -> int {{\n  let a = {a}\n  channel_read(c)\n  let b = {b}\n  channel_read(c)\n  a + b\n}}\nlet c: channel<void> = channel()\ntask {{\n  channel_write(c, nil)\n  spin({n})\n  channel_write(c, nil)\n}}\nprintln(f(c))\n"
+            ));
+            ("value:void-intrinsics-D89:forms", vec![(a + b).to_string()])
+        }
+        2 => {
+            s.push_str(&format!(
+                "let d: channel<int> = channel()\ntask {{\n  channel_write(d, {a})\n  channel.write(d, {b})\n  d.write({})\n}}\nprintln(channel_read(d))\nprintln(channel.read(d))\nprintln(d.read())\n",
+                a + b
+            ));
+            ("value:intrinsics-and-qualified:forms", vec![a.to_string(), b.to_string(), (a + b).to_string()])
+        }
+        3 => {
+            s.push_str(&format!(
+                "fn apply(f) -> channel<int> {{\n  f()\n}}\nlet mk = channel\nlet c: channel<int> = mk()\nlet d = apply(channel)\ntask {{\n  c.write({a})\n  d.write({b})\n}}\nprintln(c.read())\nprintln(d.read())\n"
+            ));
+            ("value:channel-constructor-as-value:forms", vec![a.to_string(), b.to_string()])
+        }
+        _ => {
+            // a void channel between two tasks, main joins through an int channel
+            s.push_str(&format!(
+                "let go: channel<void> = channel()\nlet done: channel<int> = channel()\ntask {{\n  for i in {n} {{\n    go.write(nil)\n  }}\n}}\ntask {{\n  var k = 0\n  for i in {n} {{\n    go.read()\n    k = k + {m}\n  }}\n  done.write(k)\n}}\nprintln(done.read())\n"
+            ));
+            ("value:void-between-tasks:forms", vec![(n * m).to_string()])
+        }
+    };
+    Job { src: s, class: class.to_string(), expected: Some(expected), oracle: None, model: None, alias_model: None, scheds: schedules(rng) }
+}
+
 fn gen_pc_job(rng: &mut Rng) -> Job {
     let (mut src, info) = gen_pc(rng);
     let mut class = format!("pc:{}:{:?}", info.shape, info.payload);
@@ -149,6 +198,9 @@ fn main() {
     for i in 0..n {
         jobs.push(gen_value_job(&mut ctx.rng, i));
         jobs.push(gen_pc_job(&mut ctx.rng));
+        if i % 3 == 0 {
+            jobs.push(gen_chan_forms(&mut ctx.rng, i / 3));
+        }
         if i % 2 == 0 {
             // shared and cyclic payloads (a channel read copies with a fresh map, fix 0cb8741)
             let c = gen_alias_channel(&mut ctx.rng, i / 2);
